@@ -25,6 +25,7 @@ import (
 // QueryCtx lists what to ask: every block number 0..MaxNumber, every block / transaction / L1 message
 // hash ever produced in the experiment (also those of reverted blocks), transaction indexes 0..MaxIndex.
 type QueryCtx struct {
+	MinNumber   uint64 // first block number of the per-number queries (0 = from genesis)
 	MaxNumber   uint64
 	MaxIndex    uint64
 	BlockHashes []*felt.Felt
@@ -88,7 +89,7 @@ func ObserveNode(n *Node, q *QueryCtx) []Fact {
 	} else {
 		add("head-state-root", "", canon(nil, err))
 	}
-	for num := uint64(0); num <= q.MaxNumber; num++ {
+	for num := q.MinNumber; num <= q.MaxNumber; num++ {
 		k := strconv.FormatUint(num, 10)
 		b, err := bc.BlockByNumber(num)
 		add("block-by-number", k, canon(b, err))
@@ -222,11 +223,44 @@ func noPreConfirmed() (blockchain.PreConfirmedReader, error) { return nil, nil }
 
 // eventsOf lists every event of the whole chain matching the addresses through Blockchain.EventFilter.
 func eventsOf(bc *blockchain.Blockchain, addrs []felt.Address) string {
-	f, err := bc.EventFilter(addrs, nil, noPreConfirmed)
+	return eventsQuery(bc, addrs, nil, nil, nil)
+}
+
+// EventsQuery lists the events matching emitter addresses (hex, nil = any) and per-position key sets
+// (hex, nil = any) in the block range [from, to] (nil = chain ends) through Blockchain.EventFilter, paging
+// with 1000-event chunks. The answer is one canonical string.
+func EventsQuery(bc *blockchain.Blockchain, addrs []string, keys [][]string, from, to *uint64) string {
+	var as []felt.Address
+	for _, a := range addrs {
+		as = append(as, felt.Address(*Felt(a)))
+	}
+	var ks [][]felt.Felt
+	for _, pos := range keys {
+		var l []felt.Felt
+		for _, k := range pos {
+			l = append(l, *Felt(k))
+		}
+		ks = append(ks, l)
+	}
+	return eventsQuery(bc, as, ks, from, to)
+}
+
+func eventsQuery(bc *blockchain.Blockchain, addrs []felt.Address, keys [][]felt.Felt, from, to *uint64) string {
+	f, err := bc.EventFilter(addrs, keys, noPreConfirmed)
 	if err != nil {
 		return canon(nil, err)
 	}
 	defer f.Close()
+	if from != nil {
+		if err := f.SetRangeEndBlockByNumber(blockchain.EventFilterFrom, *from); err != nil {
+			return canon(nil, err)
+		}
+	}
+	if to != nil {
+		if err := f.SetRangeEndBlockByNumber(blockchain.EventFilterTo, *to); err != nil {
+			return canon(nil, err)
+		}
+	}
 	var out []string
 	var tok *blockchain.ContinuationToken
 	for round := 0; round < 64; round++ {
